@@ -3,7 +3,9 @@
 
   Property theorems only; the machine is Model/Manager.lean (Manager.Run and
   Manager.driveUpdater of libvuln/updates/manager.go over the lock machine of
-  C20), the invariants are in Proofs/Manager.lean.  Every theorem about
+  C20), the invariants are in Proofs/Manager.lean and Proofs/ManagerObs.lean.
+  Which updaters a run contains (UpdaterSet, registry, options, NewManager) is
+  Model/ManagerSetup.lean; Manager.Start is the layer Model/ManagerStart.lean.  Every theorem about
   `reach env hist evs` holds for EVERY event sequence `evs` — every schedule of
   any number of concurrent runs sharing one lock source and one store, every
   cancellation moment, every fault script in `env`, every prior history
@@ -13,6 +15,8 @@
   call of the real manager is one event, answered identically by the machine.
 -/
 import ClairModel.Proofs.ManagerObs
+import ClairModel.Proofs.ManagerSetup
+import ClairModel.Proofs.ManagerStart
 
 -- every variable of a property statement is bound explicitly: a misspelt name is an error, not a new variable
 set_option autoImplicit false
@@ -505,5 +509,342 @@ example :
     (reach env [⟨2, .vuln, 4⟩] evs).ops = [⟨2, .vuln, 5⟩, ⟨2, .vuln, 4⟩] ∧
     callsOf (reach env [⟨2, .vuln, 4⟩] evs) 0 0 = [.delta 2 5 [1, 2] [3]] := by
   decide
+
+/-! ### RecordUpdaterStatus and the ReadCloser of Fetch: every outcome of driveUpdater -/
+
+/-- The fingerprint handed to RecordUpdaterStatus (`newFP`): the empty one when
+    GetUpdateOperations failed (Fetch was never called), otherwise whatever
+    Fetch returned — also next to an error or to Unchanged. -/
+theorem status_fingerprint_spec (u : Upd) (prev : Fp) (d0 d1 d2 d3 : Bool) :
+    (drive u prev d0 d1 d2 d3).2 = if u.getOk d0 = true then (u.fetch prev d1).2 else 0 := by
+  unfold drive
+  cases h0 : u.getOk d0
+  · simp
+  · simp only [if_true]
+    rcases hf : u.fetch prev d1 with ⟨res, fp⟩
+    cases res
+    · cases hp : u.parse d2 with
+      | none => rfl
+      | some p => cases h3 : u.storeOk d3 <;> simp
+    · rfl
+    · rfl
+
+/-- RecordUpdaterStatus is called exactly once per driven updater, whatever the
+    outcome (stored, unchanged, GetUpdateOperations / Fetch / Parse / store
+    error), after driveUpdater's body, with the updater's own name, the value
+    of `newFP` and the failure flag of that very driveUpdater call; a worker
+    that is skipped, or still inside driveUpdater, has recorded nothing. -/
+theorem status_recorded_exactly_once (env : Env) (hist : List Op) (evs : List Ev) (r i : Nat) :
+    (∀ res, ((reach env hist evs).pc r i).reported = some res →
+      ∃ fp prev d0 d1 d2 d3, drive (env.upd i) prev d0 d1 d2 d3 = (res, fp) ∧
+        statusOf (reach env hist evs) r i = [⟨r, i, (env.upd i).name, fp, res.failed⟩]) ∧
+    (((reach env hist evs).pc r i).reported = none → statusOf (reach env hist evs) r i = []) := by
+  have h := (invO_run env hist evs).st.st r i
+  constructor
+  · intro res hr; rw [hr] at h; exact h
+  · intro hr; rw [hr] at h; exact h
+
+/-- A finished worker has reported: `reported` is defined for exactly the
+    workers whose driveUpdater ran to its end. -/
+theorem finished_worker_has_reported (p : Pc) (res : Res) (h : p = .finished (some res)) : p.reported = some res := by
+  subst h; rfl
+
+/-- The ReadCloser Fetch returned is closed exactly once on every path — next
+    to an error, to Unchanged, after a parse or store failure, after success —
+    and before the status is recorded; a nil ReadCloser is never closed.  For
+    every worker whose driveUpdater has ended (`late`), and in fact always:
+    the number of Close calls is 1 if the ReadCloser is closed, else 0, and
+    it is not open any more once the status is recorded. -/
+theorem closer_closed_exactly_once (env : Env) (hist : List Op) (evs : List Ev) (r i : Nat) :
+    closesOf (reach env hist evs) r i = (if (reach env hist evs).body r i = .closed then 1 else 0) ∧
+    (((reach env hist evs).pc r i).reported ≠ none → (reach env hist evs).body r i ≠ .opened) ∧
+    ((reach env hist evs).pc r i = .finished none → (reach env hist evs).body r i = .unfetched) := by
+  have hc := (invO_run env hist evs).cl
+  refine ⟨hc.count r i, ?_, ?_⟩
+  · intro hrep hop
+    have := hc.opened r i hop
+    generalize (reach env hist evs).pc r i = p at hrep this
+    cases p <;> simp_all [Pc.reported, Pc.canOpen]
+  · intro hf
+    exact hc.early r i (by rw [hf]; rfl)
+
+/-- The parser is handed contents that have not been closed: a ReadCloser is
+    closed only after driveUpdater's body is over. -/
+theorem parser_reads_unclosed_contents (env : Env) (hist : List Op) (evs : List Ev) (r i g : Nat) (prev fp : Fp)
+    (h : (reach env hist evs).pc r i = .fetched g prev fp) : (reach env hist evs).body r i ≠ .closed := by
+  intro hc
+  have := (invO_run env hist evs).cl.closed r i hc
+  rw [h] at this; cases this
+
+/-- The deferred calls run in reverse order: the status cannot be recorded
+    while the ReadCloser is open, and Close is possible only then. -/
+theorem status_waits_for_close (env : Env) (s : State) (r i : Nat) :
+    (s.body r i = .opened → (step env s (.status r i)).2 = .bad) ∧
+    ((step env s (.close r i)).2 = .ok → s.body r i = .opened ∧ ∃ g fp res, s.pc r i = .finishing g fp res) := by
+  constructor
+  · intro hb
+    simp only [step]
+    split
+    · rfl
+    · split
+      · rfl
+      · rfl
+  · intro h
+    simp only [step] at h
+    split at h
+    · cases h
+    · split at h
+      · rename_i g fp res hpc
+        split at h
+        · rename_i hb; exact ⟨hb, g, fp, res, hpc⟩
+        · cases h
+      · cases h
+
+/-- The GC section: with retention configured, `Run` cannot return from
+    `drained` directly, and `store.GC` is called with the retention. -/
+theorem gc_section_precedes_return (env : Env) (s : State) (r : Nat) (hg : env.gc r = true)
+    (hp : (s.run r).pc = .drained) : step env s (.ret r) = (s, .bad) := by
+  simp [step, hp, hg]
+
+/-! ### which updaters a run contains: UpdaterSet, registry, options, NewManager -/
+
+open ClairModel.MgrSetup in
+/-- `UpdaterSet.Add`: fails exactly when the name is taken and then leaves the
+    set alone; otherwise the updater is in under its name.  The set keeps one
+    entry per name. -/
+theorem uset_add_spec (nm : Nat → Nat) (s : USet) (i : Nat) :
+    (USet.add nm s i = none ↔ nm i ∈ s.names) ∧
+    (∀ s', USet.add nm s i = some s' → nm i ∉ s.names ∧ s' = (nm i, i) :: s) ∧
+    (∀ s', s.WF → USet.add nm s i = some s' → s'.WF) :=
+  ⟨(add_spec nm s i).1, (add_spec nm s i).2, fun s' hw h => add_wf nm s s' i hw h⟩
+
+open ClairModel.MgrSetup in
+/-- `UpdaterSet.Merge` is all or nothing: it fails exactly when some name is
+    in both sets, names exactly those, and leaves the receiver alone; else
+    the receiver holds the entries of both, still one per name. -/
+theorem uset_merge_all_or_nothing (s t : USet) :
+    (∀ ex, USet.merge s t = .inl ex → ex ≠ [] ∧ ∀ n, n ∈ ex ↔ n ∈ t.names ∧ n ∈ s.names) ∧
+    (∀ u, USet.merge s t = .inr u → (∀ n ∈ t.names, n ∉ s.names) ∧ u = t ++ s) ∧
+    (∀ u, s.WF → t.WF → USet.merge s t = .inr u → u.WF) :=
+  ⟨(merge_spec s t).1, (merge_spec s t).2, fun u hs ht h => merge_wf s t u hs ht h⟩
+
+open ClairModel.MgrSetup in
+/-- `UpdaterSet.RegexFilter` keeps exactly the entries whose name matches. -/
+theorem uset_filter_spec (keep : Nat → Bool) (s : USet) :
+    (∀ p, p ∈ USet.regexFilter keep s ↔ p ∈ s ∧ keep p.1 = true) ∧ (s.WF → (USet.regexFilter keep s).WF) :=
+  ⟨regexFilter_spec keep s, regexFilter_wf keep s⟩
+
+open ClairModel.MgrSetup in
+/-- In a set with one entry per name, `Updaters()` holds one updater per name. -/
+theorem uset_one_updater_per_name (s : USet) (h : s.WF) :
+    (USet.updaters s).length = s.names.length ∧
+    ∀ p q, p ∈ s → q ∈ s → p.1 = q.1 → p = q := by
+  refine ⟨by simp [USet.updaters, USet.names], one_per_name s h⟩
+
+open ClairModel.MgrSetup in
+/-- `WithOutOfTree`: for every name the first updater of the list that carries
+    it is kept, later ones are ignored; one entry per name. -/
+theorem out_of_tree_first_wins (nm : Nat → Nat) (us : List Nat) :
+    (ootSet nm us).WF ∧ ∀ n, (ootSet nm us).lookup n = us.find? fun i => nm i == n :=
+  ⟨ootSet_wf nm us, ootSet_lookup nm us⟩
+
+open ClairModel.MgrSetup in
+/-- What each ManagerOption does to the factory map, entry by entry:
+    WithEnabled keeps the listed names (nil: everything), WithOutOfTree sets
+    the key "outOfTree" and nothing else, WithFactories replaces the map, the
+    other options leave it alone. -/
+theorem options_factory_map (nm : Nat → Nat) (m : Mgr) (n : Nat) :
+    (∀ e, (applyOpt nm m (.enabled (some e))).facs.lookup n = if e.contains n = true then m.facs.lookup n else none) ∧
+    ((applyOpt nm m (.enabled none)).facs = m.facs) ∧
+    (∀ us, (applyOpt nm m (.outOfTree us)).facs.lookup n =
+        if n = ootName then some (.static (ootSet nm us).updaters) else m.facs.lookup n) ∧
+    (∀ f, (applyOpt nm m (.factories f)).facs = f) ∧
+    (∀ k, (applyOpt nm m (.batch k)).facs = m.facs) ∧ (∀ k, (applyOpt nm m (.interval k)).facs = m.facs) ∧
+    (∀ c, (applyOpt nm m (.configs c)).facs = m.facs) ∧ (∀ k, (applyOpt nm m (.gc k)).facs = m.facs) :=
+  applyOpt_lookup nm m n
+
+open ClairModel.MgrSetup in
+/-- The options in the order libvuln.New passes them (WithEnabled, WithConfigs,
+    WithOutOfTree, WithGC; here after an explicit WithFactories): the manager
+    runs the enabled ones of the given factories plus the out-of-tree set. -/
+theorem canonical_options_factories (nm : Nat → Nat) (reg : List (Nat × Nat)) (db di : Nat) (F : FMap)
+    (E : List Nat) (C : Cfgs) (O : List Nat) (G : Int) (n : Nat) :
+    let m := build nm reg db di [.factories F, .enabled (some E), .configs C, .outOfTree O, .gc G]
+    (m.facs.lookup n = if n = ootName then some (.static (ootSet nm O).updaters)
+                       else if E.contains n = true then F.lookup n else none) ∧
+    m.retention = G ∧ m.configs = C ∧ m.batch = db ∧ m.interval = di := by
+  simp only [build, List.foldl_cons, List.foldl_nil]
+  refine ⟨?_, rfl, rfl, rfl, rfl⟩
+  simp only [applyOpt]
+  rw [lookup_set, lookup_filter_key F (fun k => E.contains k) n]
+
+open ClairModel.MgrSetup in
+/-- Finding `enabled-drops-out-of-tree`: the options do not commute, although
+    NewManager's comment says they can be run in any order.  WithEnabled after
+    WithOutOfTree removes the "outOfTree" factory again: updater 1, handed to
+    WithOutOfTree, is not among the updaters of a run, while in the other
+    order it is. -/
+theorem enabled_after_out_of_tree_counterexample :
+    let w : World := { name := fun i => i + 2, ucfg := fun _ => 0, fac := fun _ => ⟨true, [0]⟩, fcfg := fun _ => 0 }
+    let F : FMap := [(1, .ext 0)]
+    (build w.name [] 4 9 [.factories F, .outOfTree [1], .enabled (some [1])]).toRun w = [0] ∧
+    (build w.name [] 4 9 [.factories F, .enabled (some [1]), .outOfTree [1]]).toRun w = [1, 0] := by
+  decide
+
+open ClairModel.MgrSetup in
+/-- `updater.Register` panics exactly when the name is taken;
+    `updater.Registered` hands out the registered factories by name. -/
+theorem registry_spec (reg : List (Nat × Nat)) (n f : Nat) :
+    (register reg n f = none ↔ n ∈ reg.map (·.1)) ∧
+    (∀ r, register reg n f = some r → r = (n, f) :: reg) ∧
+    (registered reg).lookup n = (reg.lookup n).map FacV.ext :=
+  ⟨(register_spec reg n f).1, (register_spec reg n f).2, registered_lookup reg n⟩
+
+open ClairModel.MgrSetup in
+/-- `NewManager` succeeds exactly when the retention is not 1, an HTTP client
+    was given and no Configurable factory's Configure failed; the manager is
+    then the defaults with the options applied in order, and every
+    Configurable factory of its map was configured (with the config of its
+    name, or the no-op one). -/
+theorem new_manager_spec (w : World) (reg : List (Nat × Nat)) (db di : Nat) (cl : Bool) (opts : List Opt) :
+    ((∃ m calls, newManager w reg db di cl opts = .ok m calls) ↔
+      (build w.name reg db di opts).retention ≠ 1 ∧ cl = true ∧
+      facCfgFails w (build w.name reg db di opts) = false) ∧
+    (∀ m calls, newManager w reg db di cl opts = .ok m calls →
+      m = build w.name reg db di opts ∧ calls = facCfgCalls w m) :=
+  ⟨newManager_ok_iff w reg db di cl opts, newManager_ok_eq w reg db di cl opts⟩
+
+open ClairModel.MgrSetup in
+/-- The updaters of a run, in terms of the manager's factory map: the members
+    of every factory in the map that could be constructed and is not the stub
+    set, minus those whose Configure failed. -/
+theorem run_updaters_spec (w : World) (m : Mgr) (i : Nat) :
+    i ∈ m.toRun w ↔ ∃ p ∈ m.facs, (facOf w p.2).ok = true ∧ isStub w.name (facOf w p.2) = false ∧
+      i ∈ (facOf w p.2).members ∧ w.ucfg i ≠ 2 := by
+  unfold Mgr.toRun Mgr.runFacs
+  rw [plan_mem]
+  constructor
+  · rintro ⟨f, hf, hok, hst, hm, hc⟩
+    obtain ⟨p, hp, rfl⟩ := List.mem_map.1 hf
+    exact ⟨p, hp, hok, hst, hm, by simpa using hc⟩
+  · rintro ⟨p, hp, hok, hst, hm, hc⟩
+    exact ⟨_, List.mem_map.2 ⟨p, hp, rfl⟩, hok, hst, hm, by simpa using hc⟩
+
+/-- Exactly once per configured updater: when the final wait of a run that was
+    not cancelled is over, every configured updater has had exactly one worker
+    (which has finished, `all_configured_run`), and nothing else has. -/
+theorem configured_updater_run_exactly_once (env : Env) (hist : List Op) (evs : List Ev) (r : Nat)
+    (hgc : env.gcInst ∉ env.toRun r)
+    (hd : ((reach env hist evs).run r).pc.isDrained = true) (hlive : dead (reach env hist evs) r = false) :
+    ((reach env hist evs).run r).tried.Nodup ∧
+    ∀ i, i ∈ ((reach env hist evs).run r).tried ↔ i ∈ env.toRun r := by
+  have hall := all_configured_run env hist evs r hd hlive
+  have hr : InvR env (reach env hist evs) := (inv_run env hist evs).r
+  refine ⟨hr.nodup r, fun i => ⟨hr.sub r i, ?_⟩⟩
+  intro hi
+  have hne : i ≠ env.gcInst := fun he => hgc (he ▸ hi)
+  have hf := hall i hi
+  exact Decidable.byContradiction fun hn => by
+    have := (hr.idle r i hne).2 hn
+    rw [this] at hf; cases hf
+
+/-! ### Manager.Start: the periodic loop as a sequence of runs -/
+
+open ClairModel.MgrStart in
+/-- The runs Start makes are runs of the run machine: every state the loop
+    reaches is reached by the run machine alone, so every theorem above holds
+    for each of them. -/
+theorem start_runs_are_machine_runs (se : SEnv) (hist : List Op) (sevs : List SEv) :
+    ∃ evs : List Ev, (sreach se hist sevs).m = reach se.env hist evs :=
+  sreach_inner se hist sevs
+
+open ClairModel.MgrStart in
+/-- One run at a time: two runs of the same Start call are never both between
+    `begin` and `ret`; the one that is, is the loop's current run. -/
+theorem start_runs_one_at_a_time (se : SEnv) (hist : List Op) (sevs : List SEv) (s r r' : Nat)
+    (ho : se.owner r = some s) (ho' : se.owner r' = some s)
+    (ha : active (sreach se hist sevs).m r = true) (ha' : active (sreach se hist sevs).m r' = true) : r = r' := by
+  have h := invSt_run se hist sevs
+  obtain ⟨k, hk⟩ := h.own r s ho ha
+  obtain ⟨k', hk'⟩ := h.own r' s ho' ha'
+  rw [hk] at hk'
+  cases hk'; rfl
+
+open ClairModel.MgrStart in
+/-- Start returns ctx.Err() only when its context is cancelled and none of its
+    runs is in progress; it returns its own error only when no interval is
+    configured, and then none of its runs has even begun. -/
+theorem start_returns_only_cancelled_and_idle (se : SEnv) (hist : List Op) (sevs : List SEv) (s : Nat) :
+    ((sreach se hist sevs).start s = .returned true →
+      (sreach se hist sevs).sdead s = true ∧ se.interval s ≠ 0 ∧
+      ∀ r, se.owner r = some s → active (sreach se hist sevs).m r = false) ∧
+    ((sreach se hist sevs).start s = .returned false →
+      se.interval s = 0 ∧ ∀ r, se.owner r = some s → ((sreach se hist sevs).m.run r).pc = .notStarted) := by
+  have h := invSt_run se hist sevs
+  constructor
+  · intro hs
+    refine ⟨h.ret s hs, (h.ival s).2 (Or.inr (Or.inr hs)), ?_⟩
+    intro r ho
+    cases ha : active (sreach se hist sevs).m r
+    · rfl
+    · obtain ⟨k, hk⟩ := h.own r s ho ha
+      rw [hs] at hk; cases hk
+  · intro hs
+    exact ⟨(h.ival s).1 hs, h.fresh s (Or.inr hs)⟩
+
+open ClairModel.MgrStart in
+/-- Without an interval Start runs nothing: it answers with its error at once
+    and none of its runs ever begins. -/
+theorem start_without_interval_runs_nothing (se : SEnv) (hist : List Op) (sevs : List SEv) (s r : Nat)
+    (hi : se.interval s = 0) (ho : se.owner r = some s) :
+    ((sreach se hist sevs).m.run r).pc = .notStarted := by
+  have h := invSt_run se hist sevs
+  cases hs : (sreach se hist sevs).start s with
+  | idle => exact h.fresh s (Or.inl hs) r ho
+  | returned b =>
+    cases b
+    · exact h.fresh s (Or.inr hs) r ho
+    · exact absurd hi ((h.ival s).2 (Or.inr (Or.inr hs)))
+  | inRun k c => exact absurd hi ((h.ival s).2 (Or.inl ⟨k, c, hs⟩))
+  | selecting k => exact absurd hi ((h.ival s).2 (Or.inr (Or.inl ⟨k, hs⟩)))
+
+open ClairModel.MgrStart in
+/-- The initial run needs no tick: right after Start is called (with an
+    interval) its first run can begin. -/
+theorem start_initial_run_needs_no_tick (se : SEnv) (st : SState) (s r : Nat) (hi : se.interval s ≠ 0)
+    (hs : st.start s = .idle) (ho : se.owner r = some s) (hr : (st.m.run r).pc = .notStarted)
+    (hl : st.sdead s = false) :
+    (sstep se st (.sbegin s)).2 = .ok ∧
+    ∃ o, (sstep se (sstep se st (.sbegin s)).1 (.inner (.begin r))).2 = .inner o ∧ o ≠ .bad := by
+  have h1 : sstep se st (.sbegin s) = (st.setStart s (.inRun 0 none), .ok) := by
+    simp [sstep, hs, hi]
+  rw [h1]
+  refine ⟨rfl, ?_⟩
+  have hb : (step se.env st.m (.begin r)).2 ≠ .bad := by simp [step, hr]
+  refine ⟨(step se.env st.m (.begin r)).2, ?_, hb⟩
+  simp [sstep, ho, SState.setStart, startCtx, hl, hb]
+
+open ClairModel.MgrStart in
+/-- The runs of a Start call share its context: a run in progress when the
+    context is cancelled is cancelled with it. -/
+theorem start_run_shares_cancellation (se : SEnv) (hist : List Op) (sevs : List SEv) (s r : Nat)
+    (ho : se.owner r = some s) (hd : (sreach se hist sevs).sdead s = true)
+    (ha : active (sreach se hist sevs).m r = true) : dead (sreach se hist sevs).m r = true :=
+  (invSt_run se hist sevs).deadRun r s ho hd ha
+
+open ClairModel.MgrStart in
+/-- After the cancellation the loop may still take a tick (the select chooses
+    among ready cases at random), but such a run starts no updater: a run of a
+    Start call that has not begun when the context is cancelled never launches
+    a worker, whatever happens afterwards. -/
+theorem start_dead_run_launches_nothing (se : SEnv) (hist : List Op) (sevs more : List SEv) (s r : Nat)
+    (ho : se.owner r = some s) (hd : (sreach se hist sevs).sdead s = true)
+    (hn : ((sreach se hist sevs).m.run r).pc = .notStarted) :
+    ((Sm.run (sstep se) (sreach se hist sevs) more).m.run r).launchedN = 0 := by
+  obtain ⟨evs, he⟩ := sreach_inner se hist sevs
+  have h0 : ((sreach se hist sevs).m.run r).launchedN = 0 := by
+    rw [he] at hn ⊢
+    exact not_started_launched_zero se.env hist evs r hn
+  exact (squiet_run se r s ho more _ hd ⟨h0, Or.inl hn⟩).1
 
 end ClairModel.Props.C13
